@@ -1,0 +1,11 @@
+//go:build verif
+
+package decode
+
+// Thin wrappers around the unexported number decoders, compiled only with
+// -tags verif, for the verification harness in /verif (property C08).
+
+func VerifDecodeNatural(b []byte) (uint32, int)     { return buffer(b).decodeNatural() }
+func VerifDecodeReal(b []byte) (float32, int)       { return buffer(b).decodeReal() }
+func VerifDecodeCoordinate(b []byte) (float32, int) { return buffer(b).decodeCoordinate() }
+func VerifDecodeZeroToOne(b []byte) (float32, int)  { return buffer(b).decodeZeroToOne() }
